@@ -684,6 +684,44 @@ def emit_panics(rows):
     return "\n".join(L)
 
 
+# ---------------------------------------------------------------------------- which expression kinds can be bound
+def bind_reject_tables(repo: Path):
+    """the `RawExpr::K… => new_invalid_bind_error("…")` arms of the binder (`bind_next`) and of the parameter validator
+    (`validate_args`): the expression kinds that are rejected as binding targets, with the description the diagnostic uses.
+    Located by shape: any function containing such arms."""
+    out = {}
+    for rel in ("src/eval/bind.rs", "src/eval/mod.rs"):
+        src = strip_comments((repo / rel).read_text())
+        for m in re.finditer(r"\bfn\s+(\w+)\s*[(<]", src):
+            try:
+                body = fn_body(src, m.group(1), "bind_rejects")
+            except ExtractError:
+                continue
+            rows = re.findall(r"RawExpr::(\w+)(?:\{[^}]*\})?\s*=>\s*(?:return\s+)?new_invalid_bind_error\(\"((?:[^\"\\]|\\.)*)\"\)", body)
+            if rows and "fn new_invalid_bind_error" not in body:
+                n_calls = len(re.findall(r"new_invalid_bind_error\(\"", body))
+                if n_calls != len(rows):
+                    raise ExtractError("bind_rejects", f"{rel}: {n_calls} rejections in `{m.group(1)}` but {len(rows)} recognised arms")
+                key = Path(rel).name
+                if key in out:
+                    raise ExtractError("bind_rejects", f"{rel}: more than one function with binding rejections")
+                out[key] = rows
+    if set(out) != {"bind.rs", "mod.rs"}:
+        raise ExtractError("bind_rejects", f"rejection arms found in {sorted(out)}, expected the binder and the parameter validator")
+    return out
+
+
+def emit_bind_rejects(t):
+    L = []
+    for key, name, doc in (("bind.rs", "bindRejects", "expression kinds the binder rejects as targets, with the diagnostic's description"),
+                           ("mod.rs", "paramRejects", "expression kinds the parameter validator rejects, with the description")):
+        L.append(f"/-- {doc} -/")
+        L.append(f"def {name} : List (List Char × List Char) := [")
+        L.append(",\n".join(f"  ({lean_chars(k)}, {lean_chars(d)})" for k, d in t[key]))
+        L.append("]\n")
+    return "\n".join(L)
+
+
 def extend(repo: Path, tables):
     det = determinism_tables(repo)
     tables["determinism"] = det
@@ -706,6 +744,9 @@ def extend(repo: Path, tables):
     ps = panic_tables(repo)
     tables["panic_sites"] = ps
     tables.setdefault("extra_lean", []).append(emit_panics(ps))
+    br = bind_reject_tables(repo)
+    tables["bind_rejects"] = br
+    tables.setdefault("extra_lean", []).append(emit_bind_rejects(br))
     eqt = eq_tables(repo)
     tables["eq_arms"] = eqt
     tables.setdefault("extra_lean", []).append(emit_eq(eqt))
